@@ -37,7 +37,7 @@ OPS = {"add": operator.add, "subtract": operator.sub, "multiply": operator.mul, 
        "left_shift": operator.lshift, "right_shift": operator.rshift,
        "negative": operator.neg, "positive": operator.pos, "absolute": abs, "invert": operator.invert}
 KINDS = ["unary", "ra", "npscalar", "pyscalar", "0d", "col", "collist", "bad_total", "bad_same_total", "bad_rows", "bad_onerow", "alias"]
-FLOOR_TAGS = ["recv:" + r for r in c02.RECVS] + ["k:" + k for k in KINDS] + ["side:L", "side:R", "spelling:operator", "spelling:ufunc", "kind:b", "kind:i", "kind:u", "kind:f",
+FLOOR_TAGS = ["col:stride-0"] + ["recv:" + r for r in c02.RECVS] + ["k:" + k for k in KINDS] + ["side:L", "side:R", "spelling:operator", "spelling:ufunc", "kind:b", "kind:i", "kind:u", "kind:f",
                                            "v:small", "v:extreme", "v:nonfinite", "norows", "allempty", "e-first", "e-last", "e-mid", "e-consec", "e-none", "onerow-col"]
 FLOOR_MONITORS = ["c04:compare", "c04:must-refuse", "c04:operands-unchanged"]
 FP_STRICT = True       # a floating-point event inside the library that the dense computation does not have is a violation (shard.FpMonitor)
@@ -117,6 +117,11 @@ def run(case):
             if case.get("swapcol") and c.dtype.itemsize > 1:
                 other = other.astype(c.dtype.newbyteorder())          # the column in non-native byte order
                 tags.append("col:byteswapped")
+            if n and len({repr(x_) for x_ in np.asarray(ov).tolist()}) == 1 and (tot + n) % 2 == 0:
+                # one number for every row, handed over as a column without a row stride (np.broadcast_to of a 1 x 1 array; a keepdims result broadcast by the caller):
+                # it is a column of its own element type like any other
+                other = np.broadcast_to(np.array(ov[:1], dtype=dt2).reshape(1, 1), (n, 1))
+                tags.append("col:stride-0")
             ob = c[rowidx]
             if n == 1:
                 tags.append("onerow-col")
@@ -162,6 +167,15 @@ def run(case):
                 t_ = attempt(fn, la.value, other) if side == "R" else attempt(fn, other, la.value)
                 if t_.ok:
                     return violated("an array derived from x (producer %s) was combined with a ragged array of other row lengths (%s vs %s): %s" % (getattr(like, "__name__", "?"), lens, blens, describe()), tags + ["like-operand-accepted"], got=short(t_.value))
+        # what a ufunc makes of an array built with safe_mode=False is an ordinary array again (the switch is a property of that one object, not of its descendants)
+        CTX.tick("c04:unsafe-derived")
+        un_ = RA(flat.copy(), list(lens), safe_mode=False)
+        with np.errstate(all="ignore"):
+            d_ = attempt(lambda: (np.negative(un_) if dt.kind not in "b" else np.logical_not(un_)))
+        if d_.ok:
+            t_ = attempt(fn, d_.value, other) if side == "R" else attempt(fn, other, d_.value)
+            if t_.ok:
+                return violated("the result of a ufunc on an array built with safe_mode=False was combined with a ragged array of other row lengths (%s vs %s): %s" % (lens, blens, describe()), tags + ["unsafe-derived-accepted"], got=short(t_.value))
         if a.ok:
             return violated("two ragged arrays with different row lengths %s and %s were combined: %s" % (lens, blens, describe()), tags, got=short(a.value))
         # the refusal leaves both operands as they were, and the first one still combines with a matching partner
@@ -293,6 +307,8 @@ def gen_case(rng, lens, dtype, vclass, uf=None, kind=None, side=None, dtype2=Non
         dtype2 = None
     elif kind == "col":
         other = _vals(rng, dtype2, n, vclass)
+        if n and rng.random() < 0.15:
+            other = [other[0]] * n          # the same number for every row (may be handed over without a row stride)
         if rng.random() < 0.15:
             c_ = mk_case(lens, dtype, vals, uf, kind, side, other, dtype2, op, vclass)
             c_["swapcol"] = True
